@@ -87,7 +87,7 @@ pub fn session_roots(seed: u64, n: usize) -> Vec<History> {
 }
 
 /// Run one session; all observations go to `acc`. Returns interleaving signatures (hooked).
-pub fn run_session(bin: &PathBuf, mode: &Mode, roots: &[History], seed: u64, sid: u64, steps: usize, max_chain: usize, acc: &mut Acc) -> Vec<String> {
+pub fn run_session(bin: &PathBuf, mode: &Mode, roots: &[History], seed: u64, sid: u64, steps: usize, max_chain: usize, acc: &mut Acc, unanswered: &mut Vec<(String, String, u128)>) -> Vec<String> {
     let mut rng = Rng::stream(seed, 0xC03_0000 + sid);
     let mut opts = SpawnOpts::default();
     if mode.pin {
@@ -144,7 +144,9 @@ pub fn run_session(bin: &PathBuf, mode: &Mode, roots: &[History], seed: u64, sid
                     } else if threads <= 1 {
                         acc.violation(format!("C03|no-answer|{}", tag), format!("no bestmove for '{}' on {} after plan {} ms + 10 s and the search thread is gone (threads = {})", g.args, cur.to_fen(), g.plan_ms, threads), case(&s));
                     } else {
-                        acc.inconclusive.push(format!("watchdog: no bestmove for '{}' on {} within plan + 10 s while the search thread is still alive", g.args, cur.to_fen()));
+                        // still searching 10 s after the plan: decided by solo re-runs after the sweep
+                        acc.count("unanswered_with_live_search_thread", 1);
+                        unanswered.push((format!("position fen {}", cur.to_fen6(0, 1)), g.args.clone(), g.plan_ms));
                     }
                     break 'outer;
                 }
@@ -288,20 +290,39 @@ pub fn run(tier: Tier, seed: u64) -> i32 {
         plan.push((Mode { name: format!("hooked_fp{}", i), hooked: true, pin: i % 3 == 2, failpoints: Some(fp.to_string()) }, tier.pick(6, 64), 16));
     }
     let mut all_sigs: BTreeMap<String, u64> = BTreeMap::new();
+    let mut unanswered_all: Vec<(String, String, u128)> = Vec::new();
     let mut sid_base = 0u64;
     for (mode, sessions, parallel) in plan {
         let bin = if mode.hooked { &hooked } else { &plain };
         let res = run_parallel(parallel, sessions, |i| {
             let mut acc = Acc::new();
-            let sigs = run_session(bin, &mode, &roots, seed, sid_base + i as u64, steps, max_chain, &mut acc);
-            (acc, sigs)
+            let mut un = Vec::new();
+            let sigs = run_session(bin, &mode, &roots, seed, sid_base + i as u64, steps, max_chain, &mut acc, &mut un);
+            (acc, sigs, un)
         });
         sid_base += sessions as u64;
-        for (a, sigs) in res {
+        for (a, sigs, un) in res {
+            unanswered_all.extend(un);
             run.acc.merge(a, &[]);
             for s in sigs {
                 *all_sigs.entry(s).or_insert(0) += 1;
             }
+        }
+    }
+    // a go that was still unanswered 10 s after its plan while the search thread kept running:
+    // three solo re-runs on the now idle machine, a violation only if none is answered
+    run.set("unanswered_cases", json!(unanswered_all.len()));
+    for (pos_cmd, go_line, plan) in unanswered_all.iter().take(2) {
+        let c = super::c08::SlowCase { position_cmd: pos_cmd.clone(), go_args: go_line.clone(), plan_ms: *plan, latency_ms: f64::INFINITY, mode: "solo".into() };
+        let lats = super::c08::solo_confirm(&plain, &c);
+        if !lats.is_empty() && lats.iter().all(|l| l.is_infinite()) {
+            run.acc.violation(
+                format!("C03|unanswered|{}|{}", pos_cmd, go_line),
+                format!("'{}' after '{}' was not answered within plan ({} ms) + 10 s, in the session and in three solo re-runs (the search thread keeps running)", go_line, pos_cmd, plan),
+                json!({"kind": "session", "property": "C03", "script": [pos_cmd, go_line]}),
+            );
+        } else {
+            run.acc.inconclusive.push(format!("'{}' after '{}' unanswered once, answered in a solo re-run", go_line, pos_cmd));
         }
     }
     let mut top: Vec<(&String, &u64)> = all_sigs.iter().collect();
